@@ -137,7 +137,7 @@ CHECKS = {
             "mutation of shared objects is outside any model and is covered by monitoring: structure, columns, bounds, "
             "str, hash and leaf-payload fingerprints of EVERY pool relation before/after every command). " + CORR,
             "", "DESIGN.md 5/C09"),
-    "C10": (PR, "Lean 4 theorems: attach rules, exec_frame (write-once, evaluate-once) lifted to all histories + correspondence",
+    "C10": (PR, "Lean 4 theorems: attach rules, exec_frame (write-once, evaluate-once) lifted to all histories of attach/execute; Processor.process write-once for one call and for any number of calls (PayKeep threaded through the C07 induction) + correspondence",
             "Machine-checked for every history of attach_payload and iteration-engine execute calls on any acyclic trees "
             "sharing any materialization nodes: attach succeeds exactly on a marker without payload (TypeError otherwise); "
             "a payload once present is the same object at every later point; payloads appear only on materializations of "
@@ -173,7 +173,7 @@ CHECKS = {
             "Machine-checked for all predicate/expression trees and rows: as_trivial sound (spec and callable), "
             "flatten_logical_and sound, Selection normalisation equivalent, required columns sufficient. " + CORR,
             "", "DESIGN.md 5/C13"),
-    "C14": (PR, "Lean 4 theorems: well-formedness and engine consistency of the trees built by iteration-engine histories, SQL-engine histories, apply with every preferred-engine option combination, and Processor.process on multi-engine iteration trees + correspondence + structural walk of every tree the real library returns",
+    "C14": (PR, "Lean 4 theorems: well-formedness and engine consistency of the trees built by iteration-engine histories, SQL-engine histories, apply with every preferred-engine option combination, back-tracked joins (from the C03 join induction), and Processor.process on multi-engine iteration trees; Join._begin_apply / Join._finish_apply regenerated from source (bridge lemmas) + correspondence + structural walk of every tree the real library returns",
             "Machine-checked (Props/C14.lean): _finish_apply preserves well-formedness and engine consistency; every tree built "
             "by an iteration-engine history is WF and engine-consistent (every operation node in its operand's engine, no "
             "placeholder node, every expression supported); every tree built by a history inside ONE SQL engine - unary "
@@ -238,7 +238,7 @@ CHECKS = {
             "prefixes and interleavings, and begin with the prefix; the f-string is re-read from the source each run. "
             "Proof (partial): FreshUuids and step atomicity are assumptions; real threads and a forced "
             "read-read-write-write race are run against the implementation.", "", "DESIGN.md 5/C19"),
-    "C20": (PR, "Lean 4 theorems: _begin_apply rejects every ill-formed non-trivial unary request under every option; chain/join/slice rejections; regenerated Slice constructor + correspondence",
+    "C20": (PR, "Lean 4 theorems: _begin_apply rejects every ill-formed non-trivial unary request under every option; chain/join/slice rejections; cross-engine joins never built; Slice constructor, the six unary _begin_apply methods, Chain/Join/PartialJoin._begin_apply and Join._finish_apply regenerated from source (bridge lemmas) + correspondence",
             "Machine-checked on any target tree in any engine: an operation that is not a no-op and is ill-formed for the "
             "target's columns raises ColumnError from apply for EVERY combination of preferred_engine/backtrack/transfer/"
             "require options; chain with different engines/columns -> EngineError/ColumnError; join predicate column missing "
